@@ -182,6 +182,7 @@ func vxC03Exec(t *testing.T, cfg vxRunCfg, x *mc.X) (viol []mc.Violation) {
 			}
 		}
 		nops := 0
+		pwmWrites := 0
 		thin := 1
 		if !cfg.Stored && !cfg.ConfMap && !mc.Thorough() {
 			thin = 97
@@ -192,6 +193,15 @@ func vxC03Exec(t *testing.T, cfg vxRunCfg, x *mc.X) (viol []mc.Violation) {
 				regulating = true
 			}
 			name := filepath.Base(path)
+			if cfg.Scenario == "initfail" && !stopped && kind != "read" && path == w.dev.Pwm {
+				// the driver refuses one PWM write in the middle of the RPM-curve measurement (after the 256-step sweep)
+				pwmWrites++
+				if pwmWrites == 300 {
+					stopped = true
+					obs.Stopped = fmt.Sprintf("initialisation sequence failed: PWM write #%d (value %d) refused", pwmWrites, value)
+					return &env.Result{Err: env.ErrInval(path)}
+				}
+			}
 			if cfg.Scenario == "signal" && !stopped && (regulating || nops%thin == 0) {
 				if x.Choose(2, fmt.Sprintf("cancel before %s %s", kind, name)) == 1 {
 					stop(fmt.Sprintf("cancel before op #%d (%s %s=%d)", nops, kind, name, value))
@@ -266,6 +276,9 @@ func vxC03Exec(t *testing.T, cfg vxRunCfg, x *mc.X) (viol []mc.Violation) {
 		helpers.Add(1)
 		go func() {
 			defer helpers.Done()
+			if cfg.Scenario == "initfail" {
+				return // Run ends by itself with the initialisation error
+			}
 			if cfg.Scenario == "stall" {
 				// the control loop stops by itself (stalled-at-max error); the RPM monitor of this controller keeps
 				// running until the daemon shuts down, so deliver the shutdown 10 s after regulation began
@@ -372,6 +385,10 @@ func vxC03Configs() []vxRunCfg {
 		out = append(out, vxRunCfg{Kind: "hwmon", NoEnable: true, OrigMode: -1, OrigPwm: p, Stored: true, ConfMap: true, Scenario: "stall", RpmSkew: 1, Faults: false})
 	}
 	out = append(out, vxRunCfg{Kind: "file", OrigMode: -1, OrigPwm: 100, Stored: false, ConfMap: false, Scenario: "signal", RpmSkew: 1})
+	for _, m := range modes {
+		out = append(out, vxRunCfg{Kind: "hwmon", OrigMode: m, OrigPwm: 100, Stored: false, ConfMap: false, Scenario: "initfail", RpmSkew: 1, Faults: true})
+	}
+	out = append(out, vxRunCfg{Kind: "hwmon", NoEnable: true, OrigMode: -1, OrigPwm: 100, Stored: false, ConfMap: false, Scenario: "initfail", RpmSkew: 1, Faults: true})
 	return out
 }
 
